@@ -125,6 +125,7 @@ def check(ctx):
     ctx.rule("R3", "no slice bound `-n` is evaluated unless n > 0 is established (x[:-0] == [] trap)", floor=1)
     ctx.rule("R5", "SQLite backend: the GC query cuts on the same age column the backend orders reads by, newest first", floor=4)
     ctx.rule("R4", "removal is control-dependent on `force or size_over < hsize`", floor=1)
+    ctx.rule("R7", "the limit text is read in full and its unit by one exact table lookup: a regular expression applied to the limit matches the whole text (what it does not understand is an error, never dropped), and the unit spelling is a key of the unit table - no partial match against the table's keys", floor=2)
     ctx.rule("R6", "a session's file is marked unlocked only when the session ends (or by the reboot repair): the flag is cleared under the at-exit mode only, and only session-end code asks for that mode", floor=3)
 
     mod = ctx.repo.module(JSON)
@@ -381,6 +382,7 @@ def check(ctx):
     ctx.ob("R5", "xonsh/history/sqlite.py:_xh_sqlite_delete_records", "the kept set is the top of a descending order (newest first) limited to the size to keep", bool(_re.search(r"ORDER BY\s+\w+\s+DESC", txt, _re.I)) and "LIMIT" in txt.upper(), key="sqlite-gc|direction", where=loc(gc_fn))
 
     _lock_release(ctx)
+    _limit_parsing(ctx)
 
 
 SESSION_END = {
@@ -478,6 +480,86 @@ def _lock_release(ctx):
     if n_calls < 1:
         raise AnalysisError("no at-exit flush call site found in the package (expected the atexit hook and the session unload)")
 
+
+
+def _limit_parsing(ctx):
+    """$XONSH_HISTORY_SIZE / `history gc --size` reach the GC through tools.to_history_tuple.  A limit that is
+    read differently from what was written (`1,000 files` -> 1 command, `600 MiB` -> 600 minutes) makes the GC
+    delete history that is within the limit the user named."""
+    TL = "xonsh/tools.py"
+    tm = ctx.repo.module(TL)
+    fn = flat(ctx, tm.func("to_history_tuple"), depth=3)
+    st = f"{TL}:to_history_tuple"
+    from ..engine.fold import Folder, NotConstant
+    import re._parser as sre
+
+    folder = Folder(tm)
+    n_rx = 0
+    for c in calls_in(fn):
+        if not (isinstance(c.func, ast.Attribute) and c.func.attr in ("match", "search", "fullmatch", "findall", "finditer", "split", "sub")):
+            continue
+        recv = c.func.value
+        pat = None
+        if isinstance(recv, ast.Name) and recv.id in tm.assigns:
+            v = tm.assigns[recv.id][-1].value
+            # LazyObject(lambda: re.compile(<pattern>), ...) or re.compile(<pattern>)
+            comp = next((x for x in ast.walk(v) if isinstance(x, ast.Call) and call_name(x) in ("re.compile",)), None)
+            if comp is not None and comp.args:
+                try:
+                    pat = folder.fold(comp.args[0], {})
+                except NotConstant:
+                    pat = None
+        elif call_name(c) in ("re.match", "re.search", "re.fullmatch") and c.args:
+            try:
+                pat = folder.fold(c.args[0], {})
+            except NotConstant:
+                pat = None
+        else:
+            continue
+        n_rx += 1
+        if c.func.attr == "fullmatch":
+            ok = True
+        elif c.func.attr in ("match", "search") and isinstance(pat, str):
+            try:
+                items = list(sre.parse(pat))
+            except Exception:
+                items = []
+            ok = bool(items) and str(items[-1][0]) == "AT" and str(items[-1][1]) in ("AT_END", "AT_END_STRING")
+        else:
+            ok = False
+        ctx.ob("R7", st, f"`{short(c, 60)}` matches the whole limit text (fullmatch, or a pattern anchored at the end): with a prefix match `1,000 files` is read as 1 command and `1_000 commands` as 1 command", ok, key="limit|prefix-match", where=loc(c))
+    if n_rx == 0:
+        raise AnalysisError(f"{st}: no regular expression applied to the limit text found")
+    # unit resolution: the (unit, converter) pair comes out of the table by subscript/get with a key derived from
+    # the input by str()/lower()/strip()/casefold() only; nothing on the parse path walks the table's keys
+    TABLE = "HISTORY_UNITS"
+    if TABLE not in tm.assigns:
+        raise AnchorMissing(f"{TL}: {TABLE}")
+    n_lk = 0
+    for n in walk_local(fn):
+        if isinstance(n, ast.Subscript) and isinstance(n.value, ast.Name) and n.value.id == TABLE and isinstance(n.ctx, ast.Load):
+            n_lk += 1
+        elif isinstance(n, ast.Call) and isinstance(n.func, ast.Attribute) and isinstance(n.func.value, ast.Name) and n.func.value.id == TABLE and n.func.attr == "get":
+            n_lk += 1
+    partial = []
+    for n in walk_local(fn):
+        it = None
+        if isinstance(n, (ast.For, ast.comprehension)):
+            it = n.iter
+        if it is None:
+            continue
+        txt = unparse(it)
+        if not (txt == TABLE or txt.startswith(TABLE + ".") or f"({TABLE})" in txt or f"({TABLE}." in txt):
+            continue
+        # what is done with the keys: equality tests are an exact lookup spelled as a loop; anything else is partial
+        scope = n if isinstance(n, ast.For) else parent(n)
+        for x in ast.walk(scope):
+            if isinstance(x, ast.Call) and isinstance(x.func, ast.Attribute) and x.func.attr in ("startswith", "endswith", "find", "index", "rfind", "removesuffix", "removeprefix", "match", "search", "get_close_matches"):
+                partial.append(x)
+            elif isinstance(x, ast.Compare) and any(isinstance(o, (ast.In, ast.NotIn)) for o in x.ops) and not any(unparse(cm) == TABLE for cm in x.comparators):
+                partial.append(x)
+    ctx.ob("R7", st, f"the unit is resolved by an exact lookup in {TABLE} (subscript / get)", n_lk >= 1, key="limit|unit-not-from-table", where=loc(fn))
+    ctx.ob("R7", st, f"no partial match of the unit spelling against the keys of {TABLE} (a spelling the table does not list is an error: `MiB` must not become minutes, `sessions` not seconds)", not partial, key="limit|unit-partial-match", where=loc(partial[0]) if partial else loc(fn), detail=short(partial[0], 80) if partial else None)
 
 META = {
     "technique": "static analysis: def-use provenance of the removal set, CFG guard dominance, slice-shape rule over history/json.py",
